@@ -13,8 +13,8 @@ func parseArraiStringFragment(s string, validEscapes string, indent string) stri
 
 	var sb strings.Builder
 
-	number := func(i, size, base int) int {
-		n, err := strconv.ParseUint(s[i:i+size], base, size*base/4)
+	number := func(i, size, base, bits int) int {
+		n, err := strconv.ParseUint(s[i:i+size], base, bits)
 		if err != nil {
 			panic(err)
 		}
@@ -30,13 +30,13 @@ func parseArraiStringFragment(s string, validEscapes string, indent string) stri
 			i++
 			switch s[i] {
 			case 'x':
-				i = number(i+1, 2, 16)
+				i = number(i+1, 2, 16, 8)
 			case 'u':
-				i = number(i+1, 4, 16)
+				i = number(i+1, 4, 16, 16)
 			case 'U':
-				i = number(i+1, 8, 16)
+				i = number(i+1, 8, 16, 32)
 			case '0', '1', '2', '3', '4', '5', '6', '7':
-				i = number(i, 3, 8)
+				i = number(i, 3, 8, 8)
 			case 'a':
 				sb.WriteByte('\a')
 			case 'b':
